@@ -54,6 +54,7 @@ type Blob struct {
 	Parts []Value
 	Type  types.Type // for JSON blobs: the Go type marshalled
 	ID    int
+	Line  bool // a JSON blob written by Encoder.Encode: the document followed by its newline
 }
 
 type Iface struct {
